@@ -26,7 +26,7 @@ theorem named_of_no_manifest {s : St} {a : Addr} (hf : fetch s.net a.root = none
 
 /-- a valid address whose manifest names it goes straight to the checks of `openValid` -/
 theorem open_valid {s : St} {addr : String} {a : Addr} (o : Opts) (hp : parse isCid addr = some a)
-    (hn : Named isCid s a) : «open» isCid H s addr o = openValid s a o := by
+    (hn : Named isCid s a) : «open» isCid H s addr o = record (canon isCid a) (openValid s a o) := by
   unfold «open»
   rw [hp]
   dsimp only
@@ -34,15 +34,26 @@ theorem open_valid {s : St} {addr : String} {a : Addr} (o : Opts) (hp : parse is
   | none => rfl
   | some m => simp [hn m hf]
 
+/-- recording an error changes nothing; recording a success marks the database as local -/
+theorem record_error (a : Addr) (e : Err) (s : St) : record a (.error e, s) = (.error e, s) := rfl
+theorem record_ok (a : Addr) (out : Out) (s : St) : record a (.ok out, s) = (.ok out, addLocal s a) := rfl
+
+theorem addLocal_of_mem {s : St} {a : Addr} (h : a ∈ s.local) : addLocal s a = s := by
+  unfold addLocal
+  simp [h]
+
 /-- a local-only `Open` of a database without local data never gets as far as the name test -/
 theorem open_valid_localonly {s : St} {addr : String} {a : Addr} (o : Opts) (hp : parse isCid addr = some a)
     (hlo : o.localOnly = true) (hl : haveLocal s a = false) : «open» isCid H s addr o = openValid s a o := by
+  have hv : openValid s a o = (.error .notLocal, s) := by
+    unfold openValid
+    simp [hlo, hl]
   unfold «open»
   rw [hp]
   dsimp only
   cases hf : fetch s.net a.root with
-  | none => rfl
-  | some m => simp [hlo, hl]
+  | none => rw [hv]; rfl
+  | some m => simp [hlo, hl, hv, record]
 
 /-- **an address whose path is not the name recorded in the manifest under its root is refused**,
 whatever the options (unless the local-only refusal comes first), and nothing changes -/
@@ -55,20 +66,33 @@ theorem open_misnamed_refused (s : St) (addr : String) (o : Opts) (a : Addr) (m 
   rw [hf]
   simp [hn, hlo]
 
-/-- **`Open` of a valid address never changes the instance**: in particular it does NOT write the
-`_manifest` key, so it never makes `haveLocalData` true (U1) -/
-theorem open_keeps_state (s : St) (addr : String) (o : Opts) (a : Addr)
-    (hp : parse isCid addr = some a) : («open» isCid H s addr o).2 = s := by
+theorem canon_of_printed {a : Addr} (h : parse isCid (print a) = some a) : canon isCid a = a := by
+  unfold canon; rw [h]; rfl
+
+theorem record_state (c a : Addr) (s : St) (o : Opts) :
+    (record c (openValid s a o)).2 = s ∨ (record c (openValid s a o)).2 = addLocal s c := by
+  have hs := openValid_state s a o
+  unfold record
+  cases hr : (openValid s a o).1 with
+  | error e => left; simp [hr, hs]
+  | ok out => right; simp [hr, hs]
+
+/-- **`Open` of a valid address changes the instance in one way only: a database that was opened
+successfully is recorded as existing locally** (after the `fix:` commit, finding F53; a refused `Open`
+changes nothing) -/
+theorem open_state (s : St) (addr : String) (o : Opts) (a : Addr)
+    (hp : parse isCid addr = some a) :
+    («open» isCid H s addr o).2 = s ∨ («open» isCid H s addr o).2 = addLocal s (canon isCid a) := by
   unfold «open»
   rw [hp]
   dsimp only
   cases hf : fetch s.net a.root with
-  | none => exact openValid_state s a o
+  | none => exact record_state _ a s o
   | some m =>
     dsimp only
     split
-    · rfl
-    · exact openValid_state s a o
+    · left; rfl
+    · exact record_state _ a s o
 
 /-- **a local-only `Open` of a database without local data is refused** and changes nothing,
 whatever IPFS holds and whatever the other options -/
@@ -124,14 +148,20 @@ theorem open_type_and_acl_are_the_recorded_ones (s : St) (addr : String) (o : Op
     unfold «open» at h
     rw [hp] at h
     dsimp only at h
+    have hrec : ∀ r : Except Err Out × St, (record (canon isCid a) r).1 = .ok out → r.1 = .ok out := by
+      intro r hr
+      unfold record at hr
+      cases h1 : r.1 with
+      | error e => simp [h1] at hr
+      | ok x => simp [h1] at hr; rw [hr]
     cases hf : fetch s.net a.root with
-    | none => rw [hf] at h; exact h
+    | none => rw [hf] at h; exact hrec _ h
     | some m =>
       rw [hf] at h
       dsimp only at h
       split at h
       · cases h
-      · exact h
+      · exact hrec _ h
   obtain ⟨m, hm, ho, _, _⟩ := openValid_ok hv
   exact ⟨m, hm, ho⟩
 
@@ -182,25 +212,43 @@ theorem create_then_open_same (s s' : St) (name ty : String) (o : Opts) (a : Add
     (h : create isCid H s name ty o = (.ok (a, ty', wl), s')) :
     (∀ o', «open» isCid H s' (print a) o' = (.ok (a, ty', wl), s')) ∧
     (∀ s2 o', fetch s2.net a.root = fetch s'.net a.root → ty' ∈ s2.types → o'.localOnly = false →
-      «open» isCid H s2 (print a) o' = (.ok (a, ty', wl), s2)) ∧
+      «open» isCid H s2 (print a) o' = (.ok (a, ty', wl), addLocal s2 a)) ∧
     (∀ s2 o', a ∉ s2.local → o'.localOnly = true →
       «open» isCid H s2 (print a) o' = (.error .notLocal, s2)) := by
   obtain ⟨hpp, hloc, hnet, hty, _, hnm⟩ := create_ok_state hc hs h
   simp only at hpp hloc hnet hty hnm
   refine ⟨fun o' => ?_, fun s2 o' hf ht2 hlo => ?_, fun s2 o' hl hlo => ?_⟩
-  · rw [open_valid o' hpp (fun m hm => hnm m (by rw [hnet] at hm; cases hm; rfl))]
-    exact openValid_of (m := ⟨name, ty', wl⟩) (fun _ => hloc) hnet hty
-  · rw [open_valid o' hpp (fun m hm => hnm m (by rw [hf, hnet] at hm; cases hm; rfl))]
-    exact openValid_of (m := ⟨name, ty', wl⟩) (fun h => by rw [hlo] at h; cases h)
-      (hf.trans hnet) (by simpa using ht2)
+  · rw [open_valid o' hpp (fun m hm => hnm m (by rw [hnet] at hm; cases hm; rfl)),
+      openValid_of (m := ⟨name, ty', wl⟩) (fun _ => hloc) hnet hty, record_ok, canon_of_printed hpp,
+      addLocal_of_mem hloc]
+  · rw [open_valid o' hpp (fun m hm => hnm m (by rw [hf, hnet] at hm; cases hm; rfl)),
+      openValid_of (m := ⟨name, ty', wl⟩) (fun h => by rw [hlo] at h; cases h)
+        (hf.trans hnet) (by simpa using ht2), record_ok, canon_of_printed hpp]
   · exact open_unknown_localonly_refused s2 (print a) o' a hpp hl hlo
 
-/-- U1 made explicit: an instance that opened a remote database successfully still has no "local
-data" for it; a later local-only `Open` is refused -/
-theorem open_remote_then_localonly_refused (s : St) (addr : String) (o o' : Opts) (a : Addr)
-    (hp : parse isCid addr = some a) (hl : a ∉ s.local) (hlo : o'.localOnly = true) :
-    «open» isCid H («open» isCid H s addr o).2 addr o' = (.error .notLocal, s) := by
-  rw [open_keeps_state s addr o a hp]
-  exact open_unknown_localonly_refused s addr o' a hp hl hlo
+/-- **after a successful `Open` of a remote database the instance knows it locally** (after the
+`fix:` commit, finding F53; it did not — U1): a later local-only `Open` of the same address succeeds
+with the same type and write list -/
+theorem open_remote_then_localonly_succeeds (s : St) (addr : String) (o o' : Opts) (a : Addr) (out : Out)
+    (hp : parse isCid addr = some a) (hn : Named isCid s a) (hca : parse isCid (print a) = some a)
+    (h : («open» isCid H s addr o).1 = .ok out) :
+    («open» isCid H («open» isCid H s addr o).2 addr o').1 = .ok out := by
+  have hnet : ∀ st : St, st.net = s.net → Named isCid st a := fun st hst m hm => hn m (by rw [← hst]; exact hm)
+  rw [open_valid o hp hn, canon_of_printed hca] at h ⊢
+  cases hr : (openValid s a o).1 with
+  | error e => unfold record at h; simp [hr] at h
+  | ok x =>
+    have hx : x = out := by
+      unfold record at h; simp [hr] at h; exact h
+    subst hx
+    obtain ⟨m, hm, ho, hty, _⟩ := openValid_ok hr
+    have hs2 : (record a (openValid s a o)).2 = addLocal s a := by
+      unfold record; simp [hr, openValid_state]
+    rw [hs2]
+    have hnet2 : (addLocal s a).net = s.net := rfl
+    rw [open_valid o' hp (hnet _ hnet2), canon_of_printed hca]
+    have hloc : a ∈ (addLocal s a).local := (haveLocal_iff _ _).mp (haveLocal_addLocal _ a)
+    rw [openValid_of (m := m) (fun _ => hloc) (by rw [hnet2]; exact hm) (by exact hty), record_ok]
+    simp [ho]
 
 end Orbit.OC
